@@ -90,20 +90,20 @@ QOfInts(M) == [r \in DOMAIN M |-> [c \in DOMAIN M[r] |-> QInt(M[r][c])]]
 QVec(x) == [c \in DOMAIN x |-> QInt(x[c])]
 QScale(s, u) == [c \in DOMAIN u |-> QMul(s, u[c])]
 
-\* the transformed field at the global point x (the cell is  x = A X):  TransformClass rules of Part 3
-RefPoint(A, x) == QMatVec(InvQ(A), x)
+\* the transformed field at the global point x (the cell is  x = A X):  TransformClass rules of Part 3.
+\* iA = InvQ(A), evaluated once per job
 FieldAt(F, P) == [c \in DOMAIN F |-> PolyAt(F[c], P)]
-Mapped(cl, A, F, x) ==
-  LET P == RefPoint(A, x) IN
+Mapped(cl, A, iA, F, x) ==
+  LET P == QMatVec(iA, x) IN
   CASE cl = "H1"    -> FieldAt(F, P)
     [] cl = "Hdiv"  -> QScale(Q(1, DetM(A)), QMatVec(QOfInts(A), FieldAt(F, P)))
-    [] cl = "Hcurl" -> QTMatVec(InvQ(A), FieldAt(F, P))
+    [] cl = "Hcurl" -> QTMatVec(iA, FieldAt(F, P))
 \* derivative along the global axis d of component c, by the stencil of Part 1 on the window a..a+n-1 (h = 1)
-QStencil(cl, A, F, x, c, d, a, n) ==
+QStencil(cl, A, iA, F, x, c, d, a, n) ==
   LET st == StencilAt(1, a, n) IN
   QMul(Q(1, st.den),
        QSumAll([j \in 1..n |-> QMul(QInt(st.num[j]),
-                  Mapped(cl, A, F, [k \in DOMAIN x |-> QAdd(x[k], QInt(IF k = d THEN a + j - 1 ELSE 0))])[c])]))
+                  Mapped(cl, A, iA, F, [k \in DOMAIN x |-> QAdd(x[k], QInt(IF k = d THEN a + j - 1 ELSE 0))])[c])]))
 RefGradAt(p, P)  == [d \in DOMAIN P |-> PolyAt(PolyD(p, d), P)]
 RefDivAt(F, P)   == QSumAll([d \in DOMAIN F |-> PolyAt(PolyD(F[d], d), P)])
 RefCurl2At(F, P) == QSub(PolyAt(PolyD(F[2], 1), P), PolyAt(PolyD(F[1], 2), P))
@@ -113,13 +113,15 @@ RefCurl3At(F, P) == << QSub(PolyAt(PolyD(F[3], 2), P), PolyAt(PolyD(F[2], 3), P)
 
 PiolaHolds(job) ==
   LET A == job.A  F == job.F  dim == Len(A)
-      x == QVec(job.x)  P == RefPoint(A, x)
+      iA == TLCEval(InvQ(A))
+      x == QVec(job.x)  P == TLCEval(QMatVec(iA, x))
       a == job.a  n == 4                                   \* fields have degree <= 2: four nodes, any position
-      D(cl, c, d) == QStencil(cl, A, F, x, c, d, a, n)
+      D(cl, c, d) == QStencil(cl, A, iA, F, x, c, d, a, n)
       det == DetM(A)
   IN /\ AdjIsInverse(A)
      \* H1 (first component as a scalar):  grad = invDF^T grad_ref
-     /\ LET g == QTMatVec(InvQ(A), RefGradAt(F[1], P)) IN \A d \in 1..dim : QStencil("H1", A, <<F[1]>>, x, 1, d, a, n) = g[d]
+     /\ LET g == QTMatVec(iA, RefGradAt(F[1], P)) IN
+        \A d \in 1..dim : QStencil("H1", A, iA, <<F[1]>>, x, 1, d, a, n) = g[d]
      \* contravariant:  div = div_ref / det
      /\ QSumAll([d \in 1..dim |-> D("Hdiv", d, d)]) = QMul(Q(1, det), RefDivAt(F, P))
      \* covariant:  2-D curl = curl_ref / det ;  3-D curl = DF curl_ref / det
@@ -130,16 +132,35 @@ PiolaHolds(job) ==
              /\ QSub(D("Hcurl", 1, 3), D("Hcurl", 3, 1)) = want[2]
              /\ QSub(D("Hcurl", 2, 1), D("Hcurl", 1, 2)) = want[3]
 
-Mats2 == {A \in [1..2 -> [1..2 -> -1..2]] : Det2M(A) # 0}
-Mats3 == {A \in [1..3 -> [1..3 -> 0..1]] : Det3M(A) # 0}
+\* universes.  quick: 2x2 matrices with entries -1..2 whose first row is non-negative, 13 fields; 3x3: unit upper
+\* triangular 0/1 matrices and four others (two orientation reversing, two with det 2), 6 fields.
+\* thorough (C09_LEVEL = thorough): all 2x2 matrices with entries -1..2, all monomial pairs; all 0/1 3x3 matrices.
+Thorough == IOEnv.C09_LEVEL = "thorough"
+AllMats2 == {A \in [1..2 -> [1..2 -> -1..2]] : Det2M(A) # 0}
+AllMats3 == {A \in [1..3 -> [1..3 -> 0..1]] : Det3M(A) # 0}
 Alphas2 == {al \in [1..2 -> 0..2] : al[1] + al[2] <= 2}
-Alphas3 == {<<0, 0, 0>>, <<1, 0, 0>>, <<0, 1, 1>>, <<0, 0, 2>>, <<1, 1, 0>>}
-\* reference fields with monomial components (every pair / a cyclic family of triples), plus two mixed ones
-Fields2 == {<< <<<<1, a1>>>>, <<<<c2, a2>>>> >> : a1 \in Alphas2, a2 \in Alphas2, c2 \in {-1, 2}}
-           \cup {<< <<<<2, <<2, 0>>>>, <<-3, <<0, 1>>>>, <<1, <<0, 0>>>>>>, <<<<1, <<1, 1>>>>, <<4, <<0, 2>>>>>> >>}
-Fields3 == {<< <<<<1, a1>>>>, <<<<-1, a2>>>>, <<<<2, a3>>>> >> : a1 \in Alphas3, a2 \in Alphas3, a3 \in Alphas3}
-Universe == [A : Mats2, F : Fields2, x : {<<1, -2>>}, a : {-1, -3}]
-            \cup [A : Mats3, F : Fields3, x : {<<1, 0, -1>>}, a : {-2}]
+Alphas3q == << <<0, 0, 0>>, <<1, 0, 0>>, <<0, 1, 1>>, <<0, 0, 2>>, <<1, 1, 0>> >>
+Alphas3 == {Alphas3q[k] : k \in 1..5}
+Mixed2 == << <<<<2, <<2, 0>>>>, <<-3, <<0, 1>>>>, <<1, <<0, 0>>>>>>, <<<<1, <<1, 1>>>>, <<4, <<0, 2>>>>>> >>
+Mixed3 == << <<<<1, <<0, 1, 1>>>>, <<2, <<1, 0, 0>>>>>>, <<<<-1, <<2, 0, 0>>>>, <<1, <<0, 0, 1>>>>>>, <<<<3, <<1, 1, 0>>>>, <<1, <<0, 0, 0>>>>>> >>
+NextAlpha2(al) == CASE al = <<0, 0>> -> <<1, 1>> [] al = <<1, 1>> -> <<2, 0>> [] al = <<2, 0>> -> <<0, 1>>
+                    [] al = <<0, 1>> -> <<0, 2>> [] al = <<0, 2>> -> <<1, 0>> [] al = <<1, 0>> -> <<0, 0>>
+Mats(dim) == IF dim = 2
+             THEN (IF Thorough THEN AllMats2 ELSE {A \in AllMats2 : A[1][1] >= 0 /\ A[1][2] >= 0})
+             ELSE (IF Thorough THEN AllMats3
+                   ELSE {A \in AllMats3 : A[2][1] = 0 /\ A[3][1] = 0 /\ A[3][2] = 0}
+                        \cup {<< <<0, 1, 0>>, <<1, 0, 0>>, <<0, 0, 1>> >>, << <<0, 0, 1>>, <<0, 1, 0>>, <<1, 0, 0>> >>,
+                              << <<0, 1, 1>>, <<1, 0, 1>>, <<1, 1, 0>> >>, << <<1, 1, 0>>, <<0, 1, 1>>, <<1, 0, 1>> >>})
+Fields(dim) ==
+  IF dim = 2
+  THEN {Mixed2} \cup (IF Thorough
+                     THEN {<< <<<<1, a1>>>>, <<<<c2, a2>>>> >> : a1 \in Alphas2, a2 \in Alphas2, c2 \in {-1, 2}}
+                     ELSE {<< <<<<1, a1>>>>, <<<<c2, NextAlpha2(a1)>>>> >> : a1 \in Alphas2, c2 \in {-1, 2}})
+  ELSE {Mixed3} \cup (IF Thorough
+                     THEN {<< <<<<1, a1>>>>, <<<<-1, a2>>>>, <<<<2, a3>>>> >> : a1 \in Alphas3, a2 \in Alphas3, a3 \in Alphas3}
+                     ELSE {<< <<<<1, Alphas3q[k]>>>>, <<<<-1, Alphas3q[(k % 5) + 1]>>>>, <<<<2, Alphas3q[((k + 2) % 5) + 1]>>>> >> : k \in 1..5})
+Points(dim) == IF dim = 2 THEN {<<1, -2>>} ELSE {<<1, 0, -1>>}
+Starts(dim) == IF dim = 2 THEN {-1, -3} ELSE {-2}
 
 \* ---------------------------------------------------------------------------
 \* (d) tables
@@ -165,10 +186,15 @@ ASSUME IOEnv.OUT_FILE = "" \/
                                       tol |-> [deriv |-> TolDerivBits, map |-> TolMapBits, dual |-> TolDualBits,
                                                glob |-> TolGlobBits]])
 
-VARIABLES job, done
-vars == <<job, done>>
-Init == job \in Universe /\ done = FALSE
-Next == done = FALSE /\ done' = TRUE /\ UNCHANGED job
+\* two-level enumeration so that the jobs are spread over the TLC workers
+VARIABLES stage, job
+vars == <<stage, job>>
+Init == stage = 0 /\ job \in {[dim |-> 2], [dim |-> 3]}
+Next == \/ /\ stage = 0 /\ stage' = 1
+           /\ \E A \in Mats(job.dim) : job' = [dim |-> job.dim, A |-> A]
+        \/ /\ stage = 1 /\ stage' = 2
+           /\ \E F \in Fields(job.dim) : \E x \in Points(job.dim) : \E a \in Starts(job.dim) :
+                job' = [dim |-> job.dim, A |-> job.A, F |-> F, x |-> x, a |-> a]
 Spec == Init /\ [][Next]_vars
-PiolaIdentities == PiolaHolds(job)
+PiolaIdentities == stage = 2 => PiolaHolds(job)
 ==============================================================================
